@@ -9,7 +9,7 @@ mods = sys.argv[1].split(",")
 jobs = int(os.environ.get("JOBS", "16"))
 t0 = time.time()
 only = os.environ.get("TASK")
-ctx, loaded, results = driver.run_modules(mods, {"z3_timeout_ms": int(os.environ.get("ZT", "10000")), "only_tasks": only.split(",") if only else None, "verify_modules": os.environ.get("VM", "").split(",") if os.environ.get("VM") else None}, jobs=jobs)
+ctx, loaded, results = driver.run_modules(mods, {"z3_timeout_ms": int(os.environ.get("ZT", "10000")), "reach_probe": bool(os.environ.get("REACH")), "only_tasks": only.split(",") if only else None, "verify_modules": os.environ.get("VM", "").split(",") if os.environ.get("VM") else None}, jobs=jobs)
 n = bad = 0
 for r in results:
     if r.get("error"):
@@ -18,6 +18,8 @@ for r in results:
         print("UNSUPPORTED in", r["label"], ":", r["unsupported"]); continue
     if not r.get("lemma"):
         print(f"== {r['label']}: paths={r.get('paths')} obligations={len(r['obligations'])} pre={r.get('pre_sat')} gen={r.get('gen_s')}s wall={r['wall_s']}s")
+    if r.get("reach"):
+        print("   REACH", r["reach"])
     for o in r["obligations"]:
         n += 1
         if o["status"] != "unsat" or "-v" in sys.argv:
